@@ -9,6 +9,7 @@ Local Open Scope bool_scope.
 Section C03net.
 Variable K : fld.
 Add Field KFn3 : (fth K).
+Notation srcs := (srcs K).
 
 (* ---- (2) netlists -------------------------------------------------------- *)
 Theorem asm_src_add (N : netlist K) (i : nat) (s1 s2 : srcs) :
